@@ -51,3 +51,181 @@ CONTRACTS[U + 'p0'] = dict(
     modifies=[], returns='int',
     loops={0: dict(var='i', invariant=['p0 == XZSum(g, i)'])},
 )
+
+CONTRACTS[U + 'ps0'] = dict(
+    params=[('gs', 'int2')],
+    requires=[],
+    ensures=['len(result) == rows(gs)',
+             'forall(j, 0, rows(gs), result[j] == XZSum(gs[j], cols(gs) // 2) % 4)'],
+    modifies=[], returns='int1 fresh',
+    loops={0: dict(var='j', invariant=['len(ps0) == L',
+                                       'forall(j2, 0, j, ps0[j2] == XZSum(gs[j2], N))',
+                                       'forall(j2, j, L, ps0[j2] == 0)']),
+           1: dict(var='i', invariant=['len(ps0) == L', '0 <= j < L',
+                                       'forall(j2, 0, j, ps0[j2] == XZSum(gs[j2], N))',
+                                       'ps0[j] == XZSum(gs[j], i)',
+                                       'forall(j2, j + 1, L, ps0[j2] == 0)'])},
+)
+
+CONTRACTS[U + 'acq_mat'] = dict(
+    params=[('gs', 'int2')],
+    requires=[],
+    ensures=['rows(result) == rows(gs)', 'cols(result) == rows(gs)',
+             'forall(a, 0, rows(gs), forall(b, 0, rows(gs), result[a][b] == AcqSum(gs[a], gs[b], cols(gs) // 2) % 2))'],
+    modifies=[], returns='int2 fresh',
+    loops={0: dict(var='j1', invariant=['rows(mat) == L', 'cols(mat) == L',
+                                        'forall(a, 0, j1, forall(b, 0, L, mat[a][b] == AcqSum(gs[a], gs[b], N)))',
+                                        'forall(a, j1, L, forall(b, 0, L, mat[a][b] == 0))']),
+           1: dict(var='j2', invariant=['rows(mat) == L', 'cols(mat) == L', '0 <= j1 < L',
+                                        'forall(a, 0, j1, forall(b, 0, L, mat[a][b] == AcqSum(gs[a], gs[b], N)))',
+                                        'forall(b, 0, j2, mat[j1][b] == AcqSum(gs[j1], gs[b], N))',
+                                        'forall(b, j2, L, mat[j1][b] == 0)',
+                                        'forall(a, j1 + 1, L, forall(b, 0, L, mat[a][b] == 0))']),
+           2: dict(var='i', invariant=['rows(mat) == L', 'cols(mat) == L', '0 <= j1 < L', '0 <= j2 < L',
+                                       'forall(a, 0, j1, forall(b, 0, L, mat[a][b] == AcqSum(gs[a], gs[b], N)))',
+                                       'forall(b, 0, j2, mat[j1][b] == AcqSum(gs[j1], gs[b], N))',
+                                       'mat[j1][j2] == AcqSum(gs[j1], gs[j2], i)',
+                                       'forall(b, j2 + 1, L, mat[j1][b] == 0)',
+                                       'forall(a, j1 + 1, L, forall(b, 0, L, mat[a][b] == 0))'])},
+)
+
+# ------------------------------------------------------------------ C20: tokens
+CONTRACTS[U + 'pauli_tokenize'] = dict(
+    params=[('gs', 'int2'), ('ps', 'int1')],
+    requires=['len(ps) == rows(gs)', 'cols(gs) % 2 == 0', 'bits2(gs)', 'phases1(ps)'],
+    ensures=['rows(result) == rows(gs)', 'cols(result) == cols(gs) // 2 + 1',
+             'forall(j, 0, rows(gs), forall(i, 0, cols(gs) // 2, result[j][i] == TOKEN(gs[j][2 * i], gs[j][2 * i + 1])))',
+             'forall(j, 0, rows(gs), result[j][cols(gs) // 2] == PHASE_TOKEN(ps[j]))'],
+    modifies=[], returns='int2 fresh',
+    loops={0: dict(var='j', invariant=['rows(ts) == L', 'cols(ts) == N + 1',
+                                       'forall(a, 0, j, forall(b, 0, N, ts[a][b] == TOKEN(gs[a][2 * b], gs[a][2 * b + 1])))',
+                                       'forall(a, 0, j, ts[a][N] == PHASE_TOKEN(ps[a]))']),
+           1: dict(var='i', invariant=['rows(ts) == L', 'cols(ts) == N + 1', '0 <= j < L',
+                                       'forall(a, 0, j, forall(b, 0, N, ts[a][b] == TOKEN(gs[a][2 * b], gs[a][2 * b + 1])))',
+                                       'forall(a, 0, j, ts[a][N] == PHASE_TOKEN(ps[a]))',
+                                       'forall(b, 0, i, ts[j][b] == TOKEN(gs[j][2 * b], gs[j][2 * b + 1]))'])},
+)
+
+# ------------------------------------------------------------------ C03: combine / transform
+LEMMAS['ipowsum_ext'] = dict(
+    doc='frame lemma: IpowSum(a, b, n) only reads a[0 .. 2n)',
+    params=[('a', 'int1'), ('a2', 'int1'), ('b', 'int1'), ('n', 'int')],
+    requires=['forall(k, 0, 2 * n, a[k] == a2[k])'],
+    ensures=['IpowSum(a, b, n) == IpowSum(a2, b, n)'],
+    induction='n',
+)
+LEMMAS['acqsum_ext'] = dict(
+    doc='frame lemma: AcqSum(a, b, n) only reads a[0 .. 2n)',
+    params=[('a', 'int1'), ('a2', 'int1'), ('b', 'int1'), ('n', 'int')],
+    requires=['forall(k, 0, 2 * n, a[k] == a2[k])'],
+    ensures=['AcqSum(a, b, n) == AcqSum(a2, b, n)', 'AcqSum(b, a, n) == AcqSum(b, a2, n)'],
+    induction='n',
+)
+
+_combine_shape = ['rows(gs_out) == L_out', 'cols(gs_out) == N2', 'len(ps_out) == L_out']
+CONTRACTS[U + 'pauli_combine'] = dict(
+    params=[('C', 'int2'), ('gs_in', 'int2'), ('ps_in', 'int1')],
+    requires=['cols(C) == rows(gs_in)', 'len(ps_in) == rows(gs_in)', 'bits2(gs_in)'],
+    ensures=['rows(result[0]) == rows(C)', 'cols(result[0]) == cols(gs_in)', 'len(result[1]) == rows(C)',
+             'forall(j, 0, rows(C), forall(c, 0, cols(gs_in), result[0][j][c] == OrdG(C[j], gs_in, rows(gs_in), c)))',
+             'forall(j, 0, rows(C), result[1][j] == OrdP(C[j], gs_in, ps_in, rows(gs_in), cols(gs_in) // 2))',
+             'bits2(result[0])'],
+    modifies=[], returns=('int2 fresh', 'int1 fresh'),
+    loops={0: dict(var='j_out', invariant=_combine_shape + [
+               'forall(j, 0, j_out, forall(c, 0, N2, gs_out[j][c] == OrdG(C[j], gs_in, L_in, c)))',
+               'forall(j, 0, j_out, ps_out[j] == OrdP(C[j], gs_in, ps_in, L_in, N2 // 2))',
+               'forall(j, 0, j_out, bits(gs_out[j], N2))',
+               'forall(j, j_out, L_out, forall(c, 0, N2, gs_out[j][c] == 0))',
+               'forall(j, j_out, L_out, ps_out[j] == 0)']),
+           1: dict(var='j_in', invariant=_combine_shape + ['0 <= j_out < L_out',
+               'forall(j, 0, j_out, forall(c, 0, N2, gs_out[j][c] == OrdG(C[j], gs_in, L_in, c)))',
+               'forall(j, 0, j_out, ps_out[j] == OrdP(C[j], gs_in, ps_in, L_in, N2 // 2))',
+               'forall(j, 0, j_out, bits(gs_out[j], N2))',
+               'forall(c, 0, N2, gs_out[j_out][c] == OrdG(C[j_out], gs_in, j_in, c))',
+               'ps_out[j_out] == OrdP(C[j_out], gs_in, ps_in, j_in, N2 // 2)',
+               'bits(gs_out[j_out], N2)',
+               'forall(j, j_out + 1, L_out, forall(c, 0, N2, gs_out[j][c] == 0))',
+               'forall(j, j_out + 1, L_out, ps_out[j] == 0)'],
+               hints_head=[('lemma', 'ipowsum_ext', ['gs_out[j_out]', 'OrdGRow(C[j_out], gs_in, j_in)', 'gs_in[j_in]', 'N2 // 2'])])},
+)
+
+CONTRACTS[U + 'pauli_transform'] = dict(
+    params=[('gs_in', 'int2'), ('ps_in', 'int1'), ('gs_map', 'int2'), ('ps_map', 'int1')],
+    requires=['cols(gs_in) == rows(gs_map)', 'len(ps_map) == rows(gs_map)', 'len(ps_in) == rows(gs_in)', 'bits2(gs_map)'],
+    ensures=['rows(result[0]) == rows(gs_in)', 'cols(result[0]) == cols(gs_map)', 'len(result[1]) == rows(gs_in)',
+             'forall(j, 0, rows(gs_in), forall(c, 0, cols(gs_map), result[0][j][c] == OrdG(gs_in[j], gs_map, rows(gs_map), c)))',
+             'forall(j, 0, rows(gs_in), result[1][j] == (ps_in[j] + XZSum(gs_in[j], cols(gs_in) // 2) % 4 + OrdP(gs_in[j], gs_map, ps_map, rows(gs_map), cols(gs_map) // 2)) % 4)',
+             'bits2(result[0])'],
+    modifies=[], returns=('int2 fresh', 'int1 fresh'),
+)
+
+# ------------------------------------------------------------------ C02: rotation
+_rot_row = ('implies(AcqSum(g, old(gs)[j], cols(gs) // 2) % 2 == 1, '
+            'forall(c, 0, cols(gs), gs[j][c] == (old(gs)[j][c] + g[c]) % 2) and '
+            'ps[j] == (old(ps)[j] + p + 1 + IpowSum(old(gs)[j], g, cols(gs) // 2)) % 4) and '
+            'implies(AcqSum(g, old(gs)[j], cols(gs) // 2) % 2 == 0, '
+            'forall(c, 0, cols(gs), gs[j][c] == old(gs)[j][c]) and ps[j] == old(ps)[j])')
+CONTRACTS[U + 'clifford_rotate'] = dict(
+    params=[('g', 'int1'), ('p', 'int'), ('gs', 'int2'), ('ps', 'int1')],
+    requires=['len(g) == cols(gs)', 'len(ps) == rows(gs)', 'bits1(g)', 'bits2(gs)'],
+    ensures=['forall(j, 0, rows(gs), %s)' % _rot_row, 'bits2(gs)'],
+    modifies=['gs', 'ps'], returns=('=gs', '=ps'),
+    loops={0: dict(var='j', invariant=['forall(j, 0, j, %s)' % _rot_row if False else
+                                       'forall(jj, 0, j, %s)' % _rot_row.replace('[j]', '[jj]'),
+                                       'forall(jj, j, L, same(gs[jj], old(gs)[jj]) and ps[jj] == old(ps)[jj])',
+                                       'bits2(gs)'])},
+)
+_rots_row = ('implies(AcqSum(g, old(gs)[j], cols(gs) // 2) % 2 == 1, forall(c, 0, cols(gs), gs[j][c] == (old(gs)[j][c] + g[c]) % 2)) and '
+             'implies(AcqSum(g, old(gs)[j], cols(gs) // 2) % 2 == 0, forall(c, 0, cols(gs), gs[j][c] == old(gs)[j][c]))')
+CONTRACTS[U + 'clifford_rotate_signless'] = dict(
+    params=[('g', 'int1'), ('gs', 'int2')],
+    requires=['len(g) == cols(gs)'],
+    ensures=['forall(j, 0, rows(gs), %s)' % _rots_row],
+    modifies=['gs'], returns='=gs',
+    loops={0: dict(var='j', invariant=['forall(jj, 0, j, %s)' % _rots_row.replace('[j]', '[jj]'),
+                                       'forall(jj, j, L, same(gs[jj], old(gs)[jj]))'])},
+)
+
+# ------------------------------------------------------------------ C12: map <-> state
+CONTRACTS[U + 'map_to_state'] = dict(
+    params=[('gs_in', 'int2'), ('ps_in', 'int1')],
+    requires=['rows(gs_in) == cols(gs_in)', 'cols(gs_in) % 2 == 0', 'len(ps_in) == rows(gs_in)'],
+    ensures=['rows(result[0]) == rows(gs_in)', 'cols(result[0]) == cols(gs_in)', 'len(result[1]) == len(ps_in)',
+             # Z-images (map rows 2i+1) are the stabilizers (rows i), X-images (rows 2i) the destabilizers (rows N+i)
+             'forall(i, 0, rows(gs_in) // 2, forall(c, 0, cols(gs_in), result[0][i][c] == gs_in[2 * i + 1][c] and result[0][rows(gs_in) // 2 + i][c] == gs_in[2 * i][c]))',
+             'forall(i, 0, rows(gs_in) // 2, result[1][i] == ps_in[2 * i + 1] and result[1][rows(gs_in) // 2 + i] == ps_in[2 * i])'],
+    modifies=[], returns=('int2 fresh', 'int1 fresh'),
+    loops={0: dict(var='i', invariant=['rows(gs_out) == L', 'cols(gs_out) == N2', 'len(ps_out) == L',
+                                       'forall(k, 0, i, forall(c, 0, N2, gs_out[k][c] == gs_in[2 * k + 1][c] and gs_out[N + k][c] == gs_in[2 * k][c]))',
+                                       'forall(k, 0, i, ps_out[k] == ps_in[2 * k + 1] and ps_out[N + k] == ps_in[2 * k])'])},
+)
+CONTRACTS[U + 'state_to_map'] = dict(
+    params=[('gs_in', 'int2'), ('ps_in', 'int1')],
+    requires=['rows(gs_in) == cols(gs_in)', 'cols(gs_in) % 2 == 0', 'len(ps_in) == rows(gs_in)'],
+    ensures=['rows(result[0]) == rows(gs_in)', 'cols(result[0]) == cols(gs_in)', 'len(result[1]) == len(ps_in)',
+             'forall(i, 0, rows(gs_in) // 2, forall(c, 0, cols(gs_in), result[0][2 * i + 1][c] == gs_in[i][c] and result[0][2 * i][c] == gs_in[rows(gs_in) // 2 + i][c]))',
+             'forall(i, 0, rows(gs_in) // 2, result[1][2 * i + 1] == ps_in[i] and result[1][2 * i] == ps_in[rows(gs_in) // 2 + i])'],
+    modifies=[], returns=('int2 fresh', 'int1 fresh'),
+    loops={0: dict(var='i', invariant=['rows(gs_out) == L', 'cols(gs_out) == N2', 'len(ps_out) == L',
+                                       'forall(k, 0, i, forall(c, 0, N2, gs_out[2 * k + 1][c] == gs_in[k][c] and gs_out[2 * k][c] == gs_in[N + k][c]))',
+                                       'forall(k, 0, i, ps_out[2 * k + 1] == ps_in[k] and ps_out[2 * k] == ps_in[N + k])'])},
+)
+
+# ------------------------------------------------------------------ C18 helpers
+CONTRACTS[U + 'front'] = dict(
+    params=[('g', 'int1')],
+    requires=['len(g) >= 2'],
+    ensures=['0 <= result < len(g) // 2',
+             'forall(k, 0, result, g[2 * k] == 0 and g[2 * k + 1] == 0)',
+             'g[2 * result] != 0 or g[2 * result + 1] != 0 or result == len(g) // 2 - 1'],
+    modifies=[], returns='int',
+    loops={0: dict(var='i', invariant=['forall(k, 0, i, g[2 * k] == 0 and g[2 * k + 1] == 0)'])},
+)
+CONTRACTS[U + 'pauli_is_onsite'] = dict(
+    params=[('g', 'int1'), ('i0', 'int')],
+    defaults={'i0': 0},
+    requires=[],
+    ensures=['iff(result, forall(k, 0, len(g) // 2, k == i0 or (g[2 * k] == 0 and g[2 * k + 1] == 0)))'],
+    modifies=[], returns='bool',
+    loops={0: dict(var='i', invariant=['out', 'forall(k, 0, i, k == i0 or (g[2 * k] == 0 and g[2 * k + 1] == 0))'])},
+)
